@@ -18,9 +18,9 @@ READING: a grid without any numbered cell satisfies rule 4 (library convention f
 import itertools
 
 NAME = "view"
-STATUS = "differential only"
+STATUS = "model+differential"
 THEOREMS = []
-LEAN_CMD = None
+LEAN_CMD = "puz_view"
 
 _SIZES = [(1, 1), (1, 2), (2, 1), (1, 3), (3, 1), (2, 2), (2, 3), (3, 2), (1, 4), (4, 1), (3, 3), (2, 4), (4, 2), (3, 4), (4, 3)]
 _DIRS = ((-1, 0), (1, 0), (0, -1), (0, 1))
@@ -127,3 +127,8 @@ def rule_check(problem, answer):
                 seen.add(p)
                 todo.append(p)
     return len(seen) == len(cells)
+
+
+def lean_line(problem):
+    rows = " ".join("(" + " ".join(str(v) for v in row) + ")" for row in problem["problem"])
+    return "(puz_%s %d %d (%s))" % (NAME, problem["height"], problem["width"], rows)
